@@ -208,7 +208,9 @@ var cssZeroAngleFuncs = setOf("rotate", "rotatex", "rotatey", "rotatez", "rotate
 func canonURL(u string) string {
 	u = strings.TrimSpace(u)
 	if len(u) > 5 && strings.EqualFold(u[:5], "data:") {
-		if p, ok := rfc2397Decode([]byte(u)); ok && p.validEnc {
+		// inside a CSS string or url() raw spaces, quotes and parentheses are ordinary payload bytes; only a `%` that
+		// does not start an escape leaves the meaning to the consumer
+		if p, ok := rfc2397Decode([]byte(u)); ok && (p.validEnc || !strayPercent(u)) {
 			mt := normMediatype(p.mediatype)
 			if mt == "" {
 				mt = "text/plain;charset=us-ascii"
@@ -217,6 +219,16 @@ func canonURL(u string) string {
 		}
 	}
 	return "url(" + u + ")"
+}
+
+func strayPercent(u string) bool {
+	isHex := func(c byte) bool { return c >= '0' && c <= '9' || c >= 'a' && c <= 'f' || c >= 'A' && c <= 'F' }
+	for i := 0; i < len(u); i++ {
+		if u[i] == '%' && !(i+2 < len(u) && isHex(u[i+1]) && isHex(u[i+2])) {
+			return true
+		}
+	}
+	return false
 }
 
 type canonCtx struct {
